@@ -60,20 +60,22 @@ type nsOp struct {
 // Prepares the local namespace, and returns the namespace and a function for
 // executing the inner effectOp. Mutates fm.local.
 func (op nsOp) prepare(fm *Frame) (*Ns, func() Exception) {
-	if len(op.template.infos) > len(fm.local.infos) {
-		n := len(op.template.infos)
-		newLocal := &Ns{make([]vars.Var, n), op.template.infos}
-		copy(newLocal.slots, fm.local.slots)
-		for i := len(fm.local.infos); i < n; i++ {
-			// TODO: Take readOnly into account too
-			newLocal.slots[i] = MakeVarFromName(newLocal.infos[i].name)
+	// Always give the new namespace slots of its own, and don't touch the
+	// slots of deleted variables: fm.local may be the global namespace, which
+	// other evaluations are running in, and they empty the slots of the
+	// variables they delete without synchronization.
+	n := len(op.template.infos)
+	newLocal := &Ns{make([]vars.Var, n), op.template.infos}
+	for i, info := range fm.local.infos {
+		if !info.deleted {
+			newLocal.slots[i] = fm.local.slots[i]
 		}
-		fm.local = newLocal
-	} else {
-		// If no new variable has been created, there might still be some
-		// existing variables deleted.
-		fm.local = &Ns{fm.local.slots, op.template.infos}
 	}
+	for i := len(fm.local.infos); i < n; i++ {
+		// TODO: Take readOnly into account too
+		newLocal.slots[i] = MakeVarFromName(newLocal.infos[i].name)
+	}
+	fm.local = newLocal
 	return fm.local, func() Exception { return op.inner.exec(fm) }
 }
 
